@@ -216,6 +216,27 @@ def angle(z):
         z = SComplex(z if isinstance(z, SReal) else SReal(z), 0)
     k = ('angle', z.re.p.key(), z.im.p.key())
     a = ctx.memo.get(k)
+    if a is None and ctx.angle_zero_fork:
+        # numpy: angle(0) = 0.  Fork on z == 0 (both parts, so that the
+        # equalities are recorded as polynomial path facts)
+        kz = ('angle0', z.re.p.key(), z.im.p.key())
+        if kz not in ctx.memo:
+            ctx.memo[kz] = bool(z.re == 0) and bool(z.im == 0)
+        if ctx.memo[kz]:
+            # on this path z = 0, hence |z| = 0 (a fact the linearised prover
+            # cannot derive from s^2 = re^2 + im^2 by itself)
+            if ('angle0mag', kz) not in ctx.memo:
+                ctx.memo[('angle0mag', kz)] = True
+                old = ctx.div_mode
+                ctx.div_mode = 'assume'
+                try:
+                    mag = abs(z)
+                finally:
+                    ctx.div_mode = old
+                if mag.p.t:
+                    ctx.hyps.append(('path:|0|=0', mag.p))
+                    ctx.add(mag.z3() == 0)
+            return SReal(0)
     if a is None:
         mag = abs(z)
         ctx.ensure_nonzero(mag.p, 'angle of zero')
